@@ -21,6 +21,12 @@ PID = "C08"
 SKELETON = {
     "t.bitproto": """proto t
 
+const EARLY = 2
+
+message Early {
+    bool e = 1
+}
+
 import "lib.bitproto"
 import al "lia.bitproto"
 @TOP0@
@@ -79,10 +85,11 @@ message LM {
 }
 """,
     "lia.bitproto": """proto lia
-
+@LIATOP@
 const AK = 5
 
 message AM {
+@LIAMSG@
     bool y = 1
 }
 """,
@@ -93,9 +100,10 @@ import "t.bitproto"
 }
 
 SLOTS = {
-    "top": [("t.bitproto", "TOP0", 0), ("t.bitproto", "TOP1", 0), ("t.bitproto", "TOP2", 0), ("lib.bitproto", "LIBTOP", 0)],
+    "top": [("t.bitproto", "TOP0", 0), ("t.bitproto", "TOP1", 0), ("t.bitproto", "TOP2", 0), ("lib.bitproto", "LIBTOP", 0),
+            ("lia.bitproto", "LIATOP", 0)],
     "msg": [("t.bitproto", "MSG_M0", 1), ("t.bitproto", "MSG_M1", 1), ("t.bitproto", "MSG_M2", 1), ("t.bitproto", "MSG_N", 2),
-            ("t.bitproto", "MSG_O", 3), ("lib.bitproto", "LIBMSG", 1)],
+            ("t.bitproto", "MSG_O", 3), ("lib.bitproto", "LIBMSG", 1), ("lia.bitproto", "LIAMSG", 1)],
     "enum": [("t.bitproto", "ENUM_E", 1), ("t.bitproto", "ENUM_E2", 2), ("lib.bitproto", "LIBENUM", 1)],
 }
 
@@ -217,6 +225,12 @@ add("typeref:imported-ok", "msg", "lib.LM zz = 201", True, only=["MSG_M0", "MSG_
 add("typeref:imported-as-ok", "msg", "al.AM[2] zz = 201", True, only=["MSG_M0", "MSG_M1", "MSG_M2", "MSG_N", "MSG_O"])
 add("typeref:alias-array-ok", "msg", "A1[3]' zz = 201", True, only=["MSG_M0", "MSG_M1", "MSG_M2", "MSG_N", "MSG_O"])
 add("typeref:array-of-undefined", "msg", "ZNope[2] zz = 201", False)
+# an imported file sees only its own names - not those the importer declared before the import statement
+add("typeref:importer-name-from-imported-file", "msg", "Early zz = 201", False, only=["LIBMSG"])
+add("typeref:importer-name-ok-in-importer", "msg", "Early zz = 201", True, only=["MSG_M0", "MSG_O"])
+add("cap:importer-constant-from-imported-file", "msg", "bool[EARLY] zz = 201", False, only=["LIBMSG"])
+add("constref:importer-constant-from-imported-file", "top", "const ZX = EARLY + 1", False, only=["LIBTOP"])
+add("alias:importer-name-from-imported-file", "top", "type ZA = Early[2]", False, only=["LIBTOP"])
 add("typeref:array-of-array-alias-ok", "top", ["type ZRow = uint3[2]", "message ZGrid {", "    ZRow[2] g = 1", "}"], True)
 # --- constant references
 add("constref:undefined", "top", "const ZX = ZNOPE", False)
